@@ -102,7 +102,7 @@ def leaves(nd_):
 
 def gen_method(st, n, kind):
     """Model.gen_method; st = (ciq, max_chol, fast); kind = 'auto' | 'given'"""
-    ciq, max_chol, fast = st
+    ciq, max_chol, fast = st[:3]
     if ciq:
         return "ciq"
     if n == 1:
